@@ -899,13 +899,19 @@ def oracle(ctx, case, obs):
     leak_checks(ctx, inp, obs, key0 + ':')
 
 
+def canon_rows(rows):
+    """model write lists -> database state: rows are a multiset, link writes are idempotent (adding a present link /
+    removing an absent one changes nothing — happens when a retried body repeats a link change it had committed itself)"""
+    return sorted([w for w in rows if w < LINK_ADD] + list(set(w for w in rows if w >= LINK_ADD)))
+
+
 def compare(ctx, case, obs, mod):
     """model reply vs real observation"""
     if 'driver_error' in mod:
         ctx.divergence('driver error', strip(case), model=mod); return False
-    m = {'out': mod['out'], 'committed': sorted(mod['committed']), 'counter': mod['counter'], 'session': mod['session'],
+    m = {'out': mod['out'], 'committed': canon_rows(mod['committed']), 'counter': mod['counter'], 'session': mod['session'],
          'pending': bool(mod['pending']), 'ncommit': mod['ncommit'],
-         'trace': [sorted(t) if isinstance(t, list) else t for t in mod['trace']]}
+         'trace': [canon_rows(t) if isinstance(t, list) else t for t in mod['trace']]}
     r = {'out': obs['out'], 'committed': obs['raw_rows'], 'counter': obs['counter'], 'session': obs['session'],
          'pending': bool(obs['pending_caches']) and False, 'ncommit': obs['ncommit'], 'trace': obs['trace']}
     # db2cache may legitimately hold an unmodified cache only inside a session; outside it must be empty
